@@ -108,8 +108,8 @@ def typestate(ctx, db):
     if len(fns) < 10:
         raise Broken('suspend_point<void> members not instantiated (have %d)' % len(fns))
     npred = 0
-    inl = inline_only('cocls::suspend_point::clear_internal')
-    T = Tracer(db, depth=1, inline_filter=inl, maxvisit=2)
+    T = Tracer(db, depth=3, inline_filter=lambda caller, ev, callee: is_helper(db, caller, callee) and not callee.get('lambda'), maxvisit=2, limit=20000)
+    in_class_callers = lambda f: [c for c in callers_of(db, f['nname']) if c.startswith(SP + '::') or c.startswith(SP + '<')]
     for f in fns:
         touches = any(re.search(r'_count_flag|\._ext|\._local', (e.get('path') or '') + (e.get('rhs') or '')) for e in f.events() if e.k in ('read', 'write', 'delete'))
         if not touches:
@@ -203,6 +203,10 @@ def typestate(ctx, db):
                     heap[obj] = new
                     if new is False:
                         installed[obj] = False
+        if bad and f.get('access') != 0 and not f.get('lambda') and in_class_callers(f):
+            # a non-public helper is judged in the context of its callers (it is inlined into them above), not from an unknown entry state
+            ctx.notes.append('helper %s judged in the context of its callers only' % f['nname']) if ('helper %s judged in the context of its callers only' % f['nname']) not in ctx.notes else None
+            bad = None
         ctx.ob(rid, f, f['key'], bad is None, 'storage typestate holds on all %d path(s) of %s' % (len(trs), f['nname'].split('::')[-1]) + ('' if not bad else ' -- ' + bad[0]),
                desc=(re.sub(r'(this|param:\w+|local:\w+)', 'OBJ', bad[0])[:120] if bad else None), trace=short_trace(bad[1], bad[2]) if bad else None)
     if npred < 5:
@@ -331,7 +335,7 @@ def consumers_clear(ctx, db):
             ws = [it for it in tr if it.k == 'write' and (it.get('path') or '').endswith('_count_flag')]
             if nonempty:
                 ne += 1
-                if len(ws) != 1 or not (ws[0].get('op') == '-=' and ws[0].get('const') == 2):
+                if len(ws) != 1 or delta_of_write(ws[0]) != -2:
                     bad = bad or ('pop on a non-empty suspend point does not decrement the count by exactly one handle (found %s)' % [(w.get('op'), w.get('const'), w.get('rhs')) for w in ws], tr)
             elif ws:
                 bad = bad or ('pop on an empty suspend point changes the count', tr)
